@@ -2,7 +2,7 @@
    point of the model: int() failure -> ParserError; keyword / no-variable checks -> ParserError;
    str.format failure -> ParserError; combine -> SymbolError / ParserError; re-splitting -> ParserError /
    IndentationError; Term.__str__'s TypeError branch is unreachable; and `split('=')` on a statement
-   without '=' -> ValueError (the one foreign exception left, see ParseEqExamples). *)
+   without '=' -> ParserError since fix 1c7ed70 (it was the one foreign exception left: ValueError). *)
 From Coq Require Import String Ascii List Bool Arith ZArith Lia.
 Import ListNotations.
 Require Import Generated PyBase PyStr Lex Format Symbols SymbolsFacts Split SplitFacts Merge MergeFacts ParseEq.
@@ -69,7 +69,15 @@ Proof.
     destruct (parse_terms r) eqn:Er; [|intros H; inversion H; subst; left; eapply parse_terms_err; eauto].
     destruct (has_type TKeyword _ || has_type TInvalid _); [intros H; inversion H; auto|].
     destruct (negb _); [intros H; inversion H; auto|discriminate].
-  - intros H; inversion H; subst. right. split; [reflexivity|]. apply find_any_none. exact Ef.
+  - intros H; inversion H; subst. left. reflexivity.
+Qed.
+(* 1c7ed70: the only exception of parse_equation_terms is ParserError *)
+Lemma parse_equation_terms_err_own eq e : parse_equation_terms eq = Raise e -> e = ParserError.
+Proof. intros H. destruct (parse_equation_terms_err eq e H) as [A|[A _]]; [exact A|]. subst. unfold parse_equation_terms in H.
+  destruct (find_any "=" eq) as [[l r]|]; [|discriminate].
+  destruct (parse_terms l) eqn:El; [|inversion H; subst; eapply parse_terms_err; eauto].
+  destruct (parse_terms r) eqn:Er; [|inversion H; subst; eapply parse_terms_err; eauto].
+  destruct (has_type TKeyword _ || has_type TInvalid _); [discriminate|]. destruct (negb _); discriminate.
 Qed.
 Lemma parse_equation_terms_wf eq ts : parse_equation_terms eq = Ret ts -> forallb wf_term ts = true.
 Proof.
@@ -141,6 +149,26 @@ Proof.
   intros H; inversion H; subst. left. destruct (equation_symbols_err _ _ _ _ Hwf Eq); auto.
 Qed.
 
+(* 1c7ed70: every exception of parse_equation is one of the parser's own *)
+Theorem parse_equation_M_own eq e : parse_equation_M eq = PErr e -> own_error e.
+Proof.
+  intros H. destruct (parse_equation_M_err eq e H) as [A|(-> & _)]; [exact A|]. exfalso.
+  unfold parse_equation_M in H. destruct (is_blank eq); [discriminate|].
+  destruct (split_M eq) as [stmts [se|]] eqn:Es.
+  { inversion H; subst. destruct (split_M_err _ _ _ Es); discriminate. }
+  destruct (negb (length stmts =? 1)%nat); [discriminate|].
+  destruct (head_is "`" eq && last_is "`" eq); [discriminate|].
+  destruct (negb (count_char "{" eq =? count_char "}" eq)%nat); [discriminate|].
+  destruct (parse_equation_terms eq) as [terms|pe] eqn:Et.
+  2:{ inversion H; subst. pose proof (parse_equation_terms_err_own _ _ Et). discriminate. }
+  pose proof (parse_equation_terms_wf _ _ Et) as Hwf.
+  destruct (wf_terms_strs terms Hwf) as (a & b & Ea & Eb). rewrite Ea, Eb in H.
+  destruct (py_format (template eq) a) as [st| |]; [|discriminate|discriminate].
+  destruct (py_format (template eq) b) as [cd| |]; [|discriminate|discriminate].
+  destruct (equation_symbols st cd terms) eqn:Eq; cbn in H; [discriminate|].
+  inversion H; subst. destruct (equation_symbols_err _ _ _ _ Hwf Eq); discriminate.
+Qed.
+
 Theorem parse_equation_M_wf eq syms :
   parse_equation_M eq = POk syms -> forall x, In x syms -> wf_symbol x = true.
 Proof.
@@ -158,4 +186,11 @@ Proof.
   destruct (py_format (template eq) b) as [cd| |]; [|discriminate|discriminate].
   destruct (equation_symbols st cd terms) eqn:Eq; cbn; [|discriminate].
   intros H; inversion H; subst. eapply equation_symbols_wf; eauto.
+Qed.
+
+(* 1c7ed70: a statement text without '=' is rejected by parse_equation_terms with ParserError *)
+Lemma parse_equation_terms_no_eq eq : has_char "=" eq = false -> parse_equation_terms eq = Raise ParserError.
+Proof.
+  intros H. unfold parse_equation_terms. destruct (find_any "=" eq) as [[l r]|] eqn:E; [|reflexivity].
+  rewrite (find_any_has _ _ _ _ E) in H. discriminate.
 Qed.
